@@ -4,6 +4,7 @@ import os
 import shutil
 import subprocess
 import sys
+import random
 import tempfile
 import gfapy
 from ..gen import docs as G
@@ -313,10 +314,19 @@ def run(case, ctx):
         elif e == "file":
             fn = os.path.join(_tmp, "in.gfa")
             try:
-                with open(fn, "w", encoding="utf8", newline="") as f:
-                    f.write(text + "\n")
+                data = (text + "\n").encode("utf8")
             except UnicodeEncodeError:
                 return
+            if case["seed"] % 5 == 0:
+                # a file is a string of bytes: bytes which are not UTF-8 text (a lone 0xFF, a
+                # truncated multi-byte sequence, a Latin-1 letter, a UTF-16 byte order mark)
+                brng = random.Random(case["seed"])
+                for _ in range(brng.randint(1, 3)):
+                    pos = brng.randint(0, len(data))
+                    data = data[:pos] + brng.choice([b"\xff", b"\xc3", b"\xe9", b"\x80", b"\xff\xfe", b"\xf0\x9f"]) + data[pos:]
+                ctx.count("files_with_undecodable_bytes")
+            with open(fn, "wb") as f:
+                f.write(data)
             r = guarded(ctx, "Gfa.from_file", nb, gfapy.Gfa.from_file, fn, **kw)
         else:
             r = guarded(ctx, "Gfa()", nb, gfapy.Gfa, **kw)
